@@ -548,6 +548,22 @@ def engine_D(name, kinds, nitems, maxp, tier, seed, wd_name=None, model=True, mo
             f.stats["transitions"] += mc["generated"]
             f.stats["engines"].append({"engine": "MCFault", "kind": kind, "scope": ms, "distinct_states": mc["distinct"],
                                        "violated_in_model": viol, "ub_schedules": len(ubsched)})
+        if model:
+            # inductiveness: ONE step (clean or with any injected panic) from EVERY SafeRep store, reachable or not
+            ind = dict(consts)
+            ind["MaxSize"] = "3" if tier == "quick" else "4"
+            ind["MaxAfter"] = "1"
+            mi = vlib.run_mc("MCFaultInd", ind, ["NoUB", "SafeRep"], wd, init="IndInit", nxt="IndNext", view=None, timeout=3000)
+            if mi["violated"]:
+                log("[D/%s] MODEL-PREDICTION: SafeRep is not inductive in the model: %s (see %s)" % (kind, sorted(set(mi["violated"])), mi["out"]))
+            else:
+                log("[D/%s] MCFaultInd: from every SafeRep store of <= %s entries one step of every operation, fault free or with a "
+                    "panic at any callback, performs no unchecked out-of-bounds access and leads to a SafeRep store: %d states"
+                    % (kind, ind["MaxSize"], mi["distinct"]))
+            f.stats["states"] += mi["distinct"]
+            f.stats["transitions"] += mi["generated"]
+            f.stats["engines"].append({"engine": "MCFaultInd", "kind": kind, "max_size": ind["MaxSize"],
+                                       "distinct_states": mi["distinct"], "violated_in_model": sorted(set(mi["violated"]))})
         # covered states: the covering histories of the exhaustive model
         wd2 = vlib.workdir((wd_name or name) + "_Dstates_" + kind)
         consts = {"Items": vlib.tla_set(keyset(nitems)), "MaxP": str(maxp), "Kind": vlib.tla_str(kind), "Emit": "TRUE",
